@@ -224,6 +224,11 @@ def compactCol (co : Compact) (isArr : Bool) (collection : Col) (key : Key) (con
     ((Compact.ofEmpty collection'.isEmpty).disableShouldCompact (!co.shouldCompact)).disableShouldCompact
       (!continueCompact))
 
+/-- the outcome is a panic. -/
+def Outcome.isPanic {α : Type} : Outcome α → Bool
+  | .panic => true
+  | .ok _ => false
+
 def Outcome.bind {α β : Type} : Outcome α → (α → Outcome β) → Outcome β
   | .ok a, f => f a
   | .panic, _ => .panic
